@@ -207,7 +207,8 @@ def run(db, chk):
                            detail="; ".join(b2[:3]), sample=(n_sc % 23 == 1), extra={"unit": uname})
     chk.absorb(db, "C09", {"C09-P2"}, "C02-F3", "the basin graph / resolver scratch state is reset at every "
                "update (shared with C09-P2): stale passes of a previous call over-fill depressions",
-               pred=lambda o: "basin_graph" in o["instance"] or "mst_sink_resolver" in o["instance"],
+               pred=lambda o: "basin_graph" in o["instance"] or "mst_sink_resolver" in o["instance"]
+               or "set_base_levels" in o["instance"] or "set_mask" in o["instance"],
                min_instances=20)
     chk.absorb(db, "C01", {"C01-E7"}, "C02-F6", "the spanning-tree resolver acts whenever an outlet is not a base "
                "level (shared with C01-E7): an early exit with pits left returns the input unfilled", min_instances=20)
